@@ -68,8 +68,10 @@ def normalize(scn: dict) -> dict:
         elif not c.get("init"):
             c["init"] = ""
         c["data"] = c["sa"] != ""
-        c["pers"] = is_pers(c["sa"]) if c["sa"] else False
-        c["trig"] = is_trig(c["da"]) if c["da"] else False
+        # (scenarios extracted from foreign code give the roles explicitly; our own families encode them in the names)
+        if "pers" not in c or not c.get("roles_given"):
+            c["pers"] = is_pers(c["sa"]) if c["sa"] else False
+            c["trig"] = is_trig(c["da"]) if c["da"] else False
     return s
 
 
